@@ -50,7 +50,7 @@ class Gen:
         self.r = ctx.rng
         self.ok, self.ids = ok, ids
         self.names = [n for n, (s, pi, d) in ok.items() if d and s != 0 and (re.fullmatch(r"[A-Za-z_][A-Za-z0-9_]*", n) or n in ("°C", "°F"))
-                      and n not in ("in", "to", "as", "of", "per", "mod", "xor", "and", "or", "i", "e", "pi", "true", "false")]
+                      and n not in ("in", "to", "as", "of", "per", "mod", "xor", "and", "or", "i", "e", "pi", "true", "false", "light", "lights")]      # `light <unit>` is special syntax
         # a name defined twice (gal / gals, …) is displayed in a spelling that reads back as the OTHER unit: leave those out
         table, _, _ = units.raw_table()
         twice = set()
@@ -159,11 +159,16 @@ class Gen:
                 d = self.ok[n][2]
                 z = T(f"(0 {n})", ["L", unitcases.dims_str(d, self.ids)], phys_of(d), F(0), 0)
                 okd = same(z.dims, a.dims)
+                if not okd and a.val is None:
+                    return a          # a's value is not tracked: it could be an exact zero, which may be added to anything
                 return T(f"({z.expr} + {a.expr})", ["A", "0"] + z.model + a.model, z.dims if okd else None, a.val if okd else None, a.depth + 1)
             else:
                 b = self.tree(depth - 1 - r.randint(0, 1))
                 if b.dims is None:
                     return T(f"({a.expr} + {b.expr})", ["A", "0"] + a.model + b.model, None, None, max(a.depth, b.depth) + 1)
+                if b.val is None and not same(a.dims, b.dims):
+                    # the value of b is not tracked (a function result may be an EXACT zero, which is the permitted no-op): use an operand whose value is known
+                    b = self.leaf()
             okd = same(a.dims, b.dims)
             # keep values positive and non-zero: subtract only what is known to be smaller
             if sub and not (a.val is not None and b.val is not None and a.val > b.val and okd):
@@ -262,6 +267,20 @@ def run(ctx):
         fixed("((2 m)^((1 m) / (1 m)))", ["P", "1/1"] + L("m") + ["D"] + L("m") + L("m"), phys_of(ok["m"][2]))
         fixed("((2 lb)^((4 m) / (2 m)))", ["P", "2/1"] + L("lb") + ["D"] + L("m") + L("m"), {"kilogram": F(2)})
         fixed("(2^(1 s))", ["P", "1/1", "L", "-"] + L("s"), None)
+    # the same unit NAMES with different exponents are different dimensions (sums, differences, conversions)
+    for _ in range(150 if quick else 3000):
+        n1, n2 = g.name(), g.name()
+        d1, d2 = ok[n1][2], ok[n2][2]
+        if not any(phys_of(d1).values()) or not any(phys_of(d2).values()):
+            continue
+        l1, l2 = ["L", unitcases.dims_str(d1, ids)], ["L", unitcases.dims_str(d2, ids)]
+        e1, e2 = ctx.rng.sample([1, 2, 3, -1, -2], 2)
+        pw = lambda m, e: ["P", f"{e}/1"] + m + ["L", "-"]
+        op = ctx.rng.choice(["+", "-"])
+        fixed(f"(((2 {n1})^{e1}) {op} ((3 {n1})^{e2}))", ["A", "0"] + pw(l1, e1) + pw(l1, e2), None)
+        fixed(f"(((5 {n1}) / (2 {n2})) to {n1} {n2}^-2)", ["C", "D"] + l1 + l2 + ["M"] + l1 + pw(l2, -2), None if phys_of(d2) else None)
+        fixed(f"(((5 {n1}) (2 {n2})) to {n1}^2 {n2})", ["C", "M"] + l1 + l2 + ["M"] + pw(l1, 2) + l2, None)
+        fixed(f"(((5 {n1})^2 / (2 {n1})) + (1 {n1}))", ["A", "0", "D"] + pw(l1, 2) + l1 + l1, phys_of(d1))
     exprs = ["@debug " + t.expr for t in trees]
     outs = ctx.run_lines_robust(h, ["eval"], exprs, env={"HARNESS_LINE_TIMEOUT_S": "20"})
     mouts = ctx.run_lines(core.DRIVER, ["units"], ["tree " + " ".join(t.model) for t in trees], timeout=900)[1]
